@@ -14,6 +14,7 @@ import vlib
 
 A5 = '{"*", "_", "a", " ", "."}'
 A8 = '{"*", "_", "a", " ", ".", "NBSP", "LAQUO", "EACUTE"}'
+A9 = '{"*", "_", "a", ".", "FF", "TAB", "EMSP", "EMDASH", "EURO"}'   # ASCII white space that is not a space; 3-byte white space / punctuation / symbol
 A3 = '{"*", "_", "a"}'   # deep delimiter interplay: the shortest witnesses of a wrong search bound need 8+ delimiters/letters
 
 
@@ -32,9 +33,9 @@ CONSTANTS
 def run(ctx):
     ctx.build_harness()
     if ctx.tier == "quick":
-        plan = [("Emphasis_a5", A5, 7), ("Emphasis_a8", A8, 5), ("Emphasis_a3", A3, 10)]
+        plan = [("Emphasis_a5", A5, 7), ("Emphasis_a8", A8, 5), ("Emphasis_a9", A9, 5), ("Emphasis_a3", A3, 10)]
     else:
-        plan = [("Emphasis_a5", A5, 9), ("Emphasis_a8", A8, 7), ("Emphasis_a3", A3, 12)]
+        plan = [("Emphasis_a5", A5, 9), ("Emphasis_a8", A8, 7), ("Emphasis_a9", A9, 6), ("Emphasis_a3", A3, 12)]
     outs = []
     for name, alpha, n in plan:
         r = ctx.tlc("Emphasis", cfg(alpha, n), name=name, timeout=3000)
@@ -51,7 +52,7 @@ def run(ctx):
                 "(a..a, alone when the line is plain paragraph text, .s.); non-trivial = the spec procedure yields "
                 ">= 1 emphasis node; distinct by document bytes")
     ctx.assumptions += ["Emphasis.tla is a faithful transcription of CommonMark 0.30 process-emphasis without openers_bottom",
-                        "Unicode classes are sampled by NBSP (Zs), LAQUO (Pi), EACUTE (letter) only"]
+                        "Unicode classes are sampled by NBSP, EM SPACE (Zs), form feed, tab; LAQUO (Pi), EM DASH (Pd); EACUTE (letter), EURO SIGN (Sc, not punctuation in 0.30) only"]
     ctx.finish(confirm=lambda c: confirm(ctx, c))
 
 
